@@ -533,7 +533,7 @@ theorem meadows_components :
           (t0.name :: (selected t0.stimuli rest (pre.length + 1)).map (·.1.name)).map (fun _ => p))) := by
   refine ⟨?_, ?_, ?_, ?_⟩
   · intro info vars p t stim rows h1 h2 h3 h4 h5
-    simp [compsMat, h1, h2, h3, h4, h5, Except.toOption]
+    simp [compsMat, compsMatBy, h1, h2, h3, h4, h5, Except.toOption]
   · intro vars rowsOf ps h
     exact stackUtvs_eq vars rowsOf ps h
   · intro a b ha1 ha2 hb1 hb2
@@ -1217,7 +1217,7 @@ theorem meadows_rejections :
   · intro info tasks h1 h2; simp [compsJson, h1, h2]
   · intro info h1 h2; simp [compsJson, h1, h2]
   · intro info vars h1 h2
-    simp only [compsMat, h1, if_true, h2]
+    simp only [compsMat, compsMatBy, h1, if_true, h2]
     cases lookupVar vars sStimuli with
     | none => right; rfl
     | some v =>
@@ -1533,6 +1533,95 @@ example : ∃ c, Src.compsJson exJsonInfo (some exJsonTasks) = .ok c ∧ (c.stim
     fileVal exJsonTasks[1] "a".toList "c".toList = 3 ∧
     fileVal exJsonTasks[2] "a".toList "b".toList = 4 := by
   refine ⟨_, rfl, by decide, by decide, by decide, by decide, by decide, by decide, by decide⟩
+
+/-- **A loaded participant's entry for labels (a, b) is the file's entry for (a, b) of that
+    participant.**  About `load_rdms_comps_mat` as the source spells it (`Src.compsMat`: the test
+    a participant must pass is regenerated from `io/meadows.py`, leaf `mlMatSame`).  A
+    multi-participant `.mat` has one `stimuli_<p>` and one `rdmutv_<p>` variable per participant,
+    the vector laid out in **that participant's** stimulus order; the result keeps one label list.
+    For every such file (any variable order, participants with the same list, the same stimuli in
+    another order, other stimuli …), sorted or not: the participants of the result are exactly the
+    `stimuli*` variables, in file order, whose own list is the returned one (`kept`); all carry
+    the task name of the file name; there is one RDM per kept participant; and RDM `k` is read
+    from the variable `rdmutv_<p>` named after participant `k`, its stored entry for the labels at
+    positions `i < j` being `fileVal` of *that participant's* own list and vector.
+    Hypotheses: every `rdmutv_<p>` variable is a 1 × m matrix (what Meadows writes; the code
+    reshapes to one row per participant); labels pairwise distinct. -/
+theorem meadows_mat_participant_values [Zero α] (info : MInfo) (vars : List (Str × MatVal α))
+    (c : Comps α) (sort : Bool) (hm : info.participantScopeSingle = false)
+    (hc : Src.compsMat info vars = .ok c)
+    (hone : ∀ p rows, lookupVar vars (utvVarOf p) = some (.nums rows) → rows.length = 1)
+    (hnd : (c.stimuli.map stem).Nodup) :
+    let kept := ((vars.map (·.1)).filter (fun v => v.take 7 == sStimuli)).filter
+      (fun v => strsSame (fun a b => a == b) c.stimuli (lookupVar vars v))
+    (assemble info c sort).participant = kept.map pnameOfVar ∧
+    (assemble info c sort).taskIndex = none ∧
+    (∃ tn, info.taskName = some tn ∧ (assemble info c sort).task = some (kept.map (fun _ => tn))) ∧
+    (assemble info c sort).dissim.length = kept.length ∧
+    (∀ (k : Nat) (row : List α), (assemble info c sort).dissim[k]? = some row →
+      ∃ (v : Str) (stim : List Str) (utv : List α), kept[k]? = some v ∧
+        lookupVar vars v = some (.strs stim) ∧
+        lookupVar vars (utvVarOf (pnameOfVar v)) = some (.nums [utv]) ∧
+        ∀ (i j : Nat) (hij : i < j) (hj : j < (assemble info c sort).conds.length),
+          row.getD (triIdx (assemble info c sort).conds.length i j) 0 =
+            fileVal { taskType := none, name := pnameOfVar v, stimuli := stim, rdm := utv }
+              ((assemble info c sort).conds[i]) ((assemble info c sort).conds[j])) := by
+  intro kept
+  rw [Src.compsMat_eq] at hc
+  obtain ⟨hp, hst, hti, tn, htn, htns⟩ := compsMat_multi info vars c hm hc
+  obtain ⟨hlen, hrow⟩ := stackUtvs_rows vars c.pnames c.utvs hst (fun p _ => hone p)
+  have hdl : (assemble info c sort).dissim.length = c.utvs.length := by
+    cases sort <;> simp [assemble]
+  have hmeta := (meadows_sort_labelled info c).2.2.2.2.2.2.2 sort
+  have hkl : c.pnames.length = kept.length := by rw [hp]; simp [kept]
+  refine ⟨by rw [hmeta.1, hp], by rw [hmeta.2.2.1, hti],
+    ⟨tn, htn, by rw [hmeta.2.1, htns, hp, List.map_map]; rfl⟩, by rw [hdl, hlen, hkl], ?_⟩
+  intro k row hrw
+  have hk : k < c.utvs.length := by
+    have := (List.getElem?_eq_some_iff.mp hrw).1
+    omega
+  have hk' : k < kept.length := by omega
+  have hv : kept[k]? = some kept[k] := List.getElem?_eq_getElem hk'
+  have hpk : c.pnames[k]? = some (pnameOfVar kept[k]) := by
+    rw [hp, List.getElem?_map]
+    show Option.map pnameOfVar kept[k]? = _
+    rw [hv]; rfl
+  obtain ⟨utv, hu, hUk⟩ := hrow k _ hpk
+  have hmem : kept[k] ∈ kept := List.getElem_mem hk'
+  have hsame := (List.mem_filter.mp hmem).2
+  have hl := strsSame_eq hsame
+  obtain ⟨row', hr', hval⟩ := assemble_entry info c sort hnd
+    { taskType := none, name := pnameOfVar kept[k], stimuli := c.stimuli, rdm := utv } rfl k hUk
+  have : row' = row := by rw [hr'] at hrw; exact Option.some.inj hrw
+  subst this
+  exact ⟨kept[k], c.stimuli, utv, hv, hl, hu, hval⟩
+
+/-- a file with three participants: (a, b, c), the same stimuli as (c, a, b), and (a, b, c) again;
+    the variables in mixed order -/
+def exMatVars : List (Str × MatVal Nat) :=
+  [("rdmutv_brave_cat".toList, .nums [[1, 2, 3]]),
+   ("stimuli_able_fox".toList, .strs ["a.png".toList, "b.png".toList, "c.png".toList]),
+   ("stimuli_brave_cat".toList, .strs ["c.png".toList, "a.png".toList, "b.png".toList]),
+   ("stimuli_clean_dog".toList, .strs ["a.png".toList, "b.png".toList, "c.png".toList]),
+   ("rdmutv_clean_dog".toList, .nums [[4, 5, 6]]),
+   ("rdmutv_able_fox".toList, .nums [[7, 8, 9]])]
+
+def exMatInfo : MInfo :=
+  { version := "1".toList, experiment := "e".toList, structure_ := "1D".toList,
+    filetype := "mat".toList, taskScopeSingle := true, participantScopeSingle := false,
+    participant := none, taskIndex := none, taskName := some "arrangement".toList }
+
+/-- non-vacuity: the hypotheses hold for that file; brave-cat (other order) is skipped, able-fox
+    and clean-dog are loaded with their own vectors; brave-cat's own value for (a, b) would be 3 -/
+example : ∃ c, Src.compsMat exMatInfo exMatVars = .ok c ∧ (c.stimuli.map stem).Nodup ∧
+    lookupVar exMatVars (utvVarOf "able-fox".toList) = some (.nums [[7, 8, 9]]) ∧
+    lookupVar exMatVars (utvVarOf "brave-cat".toList) = some (.nums [[1, 2, 3]]) ∧
+    lookupVar exMatVars (utvVarOf "clean-dog".toList) = some (.nums [[4, 5, 6]]) ∧
+    c.pnames = ["able-fox".toList, "clean-dog".toList] ∧
+    (assemble exMatInfo c false).dissim = [[7, 8, 9], [4, 5, 6]] ∧
+    fileVal { taskType := none, name := [], stimuli := ["c.png".toList, "a.png".toList, "b.png".toList],
+              rdm := [1, 2, 3] } "a".toList "b".toList = 3 := by
+  refine ⟨_, rfl, by decide, rfl, rfl, rfl, by decide, by decide, by decide⟩
 
 end meadowsJson
 
